@@ -996,4 +996,114 @@ theorem mpf_cmp_spec (u v : F) (hu : u.wf) (hv : v.wf) :
 example : mpf_cmp ⟨2, 1, [2 ^ 63, 1]⟩ ⟨3, 1, [0, 2 ^ 63, 1]⟩ = 0 ∧ mpf_cmp ⟨2, 1, [2 ^ 63, 1]⟩ ⟨3, 1, [1, 2 ^ 63, 1]⟩ = -1 ∧
     mpf_cmp ⟨-1, 2, [1]⟩ ⟨-1, 1, [7]⟩ = -1 ∧ mpf_cmp ⟨1, -5, [1]⟩ ⟨-1, 9, [1]⟩ = 1 ∧ mpf_cmp ⟨0, 0, []⟩ ⟨-1, 0, [1]⟩ = 1 := by decide
 
+/-- mpf_set_d: NaN and ±∞ raise; ±0 gives 0; every other finite double is stored EXACTLY in two limbs
+    (no rounding whatever the precision of the destination): well formed, sign as the double's,
+    |mant|·B^lowExp = |d|, written without negative powers as |mant|·2^(64·(lowExp+2) + 1074) = (|d|·2^1074)·2^128. -/
+theorem mpf_set_d_spec (b : Nat) :
+    (expOf b = 2047 → mpf_set_d b = none) ∧
+    (expOf b ≠ 2047 → isZero b = true → mpf_set_d b = some ⟨0, 0, []⟩) ∧
+    (expOf b ≠ 2047 → isZero b = false → ∃ f, mpf_set_d b = some f ∧ f.wf ∧ (f.mant < 0 ↔ sigOf b = 1) ∧
+      0 ≤ 64 * (f.lowExp + 2) + 1074 ∧
+      f.mant.natAbs * 2 ^ (64 * (f.lowExp + 2) + 1074).toNat = dblNum b * 2 ^ 128) := by
+  refine ⟨fun h => ?_, fun hf hz => ?_, fun hf hz => ?_⟩
+  · unfold mpf_set_d isNaN isInf
+    by_cases m : manOf b = 0 <;> simp [h, m]
+  · have hni : (isNaN b || isInf b) = false := by unfold isNaN isInf; simp [hf]
+    unfold mpf_set_d; rw [hni, hz]; simp
+  · obtain ⟨a1, a2, a3, a4, _⟩ := absBits_fields b
+    have hni : (isNaN b || isInf b) = false := by unfold isNaN isInf; simp [hf]
+    have hneg : (isNeg b = true) ↔ sigOf b = 1 := by unfold isNeg; rw [hz]; simp
+    obtain ⟨r0, r1, ex, he, h0, h1, h1', x1, x2, hrel, _, _⟩ := extract_double_eq (absBits b) (by rw [a3]; exact hz) (by rw [a1]; exact hf)
+    rw [a4] at hrel
+    unfold mpf_set_d
+    rw [hni, hz, he]
+    simp only [Bool.false_eq_true, if_false]
+    refine ⟨_, rfl, ⟨?_, Limbs_cons.mpr ⟨h0, Limbs_cons.mpr ⟨h1', Limbs_nil⟩⟩, fun _ => by simp; omega, ?_⟩, ?_, ?_, ?_⟩
+    · by_cases c : isNeg b = true <;> simp [c]
+    · intro h; by_cases c : isNeg b = true <;> simp [c] at h
+    · have hv : 0 < val [r0, r1] := by simp only [val_cons, val_nil]; nlinarith [B_pos]
+      unfold F.mant; dsimp only
+      by_cases c : isNeg b = true
+      · simp only [c, if_true]; rw [if_pos (by decide)]
+        constructor
+        · intro _; exact hneg.mp c
+        · intro _; omega
+      · simp only [c, if_false]; rw [if_neg (by decide)]
+        constructor
+        · intro h; omega
+        · intro h; exact absurd (hneg.mpr h) c
+    · unfold F.lowExp; dsimp only
+      by_cases c : isNeg b = true <;> simp [c] <;> omega
+    · have hv : val [r0, r1] = r1 * B + r0 := by simp only [val_cons, val_nil]; ring
+      have hm : (F.mant ⟨if isNeg b = true then -2 else 2, ex, [r0, r1]⟩).natAbs = r1 * B + r0 := by
+        unfold F.mant; dsimp only
+        rw [hv]
+        generalize r1 * B + r0 = n
+        by_cases c : isNeg b = true
+        · simp only [c, if_true]; rw [if_pos (by decide)]; simp
+        · simp only [c, if_false]; rw [if_neg (by decide)]; simp
+      have hl : F.lowExp ⟨if isNeg b = true then -2 else 2, ex, [r0, r1]⟩ + 2 = ex := by
+        unfold F.lowExp; dsimp only
+        by_cases c : isNeg b = true <;> simp [c]
+      rw [hm, hl, hrel]
+
+example : mpf_set_d 0xBFF8000000000000 = some ⟨-2, 1, [2 ^ 63, 1]⟩ ∧ mpf_set_d 1 = some ⟨2, -16, [0, 2 ^ 14]⟩ ∧
+    mpf_set_d 0x8000000000000000 = some ⟨0, 0, []⟩ ∧ mpf_set_d 0x7FF0000000000000 = none := by decide
+
+/-- mpf_cmp_d is consistent with mpf_cmp: for a finite non-zero double it is literally the comparison with the
+    exact mpf image of the double (`mpf_set_d`, which is exact by `mpf_set_d_spec`), so `mpf_cmp_spec` applies;
+    for ±0 it is the sign of f; +∞ / -∞ compare above / below everything; NaN raises. -/
+theorem mpf_cmp_d_spec (f : F) (hf : f.wf) (b : Nat) :
+    (isNaN b = true → mpf_cmp_d f b = none) ∧
+    (isInf b = true → mpf_cmp_d f b = some (if sigOf b = 1 then 1 else -1)) ∧
+    (expOf b ≠ 2047 → isZero b = true → ∃ r, mpf_cmp_d f b = some r ∧ sgn r = sgn f.mant) ∧
+    (expOf b ≠ 2047 → isZero b = false → ∃ g, mpf_set_d b = some g ∧ mpf_cmp_d f b = some (mpf_cmp f g)) := by
+  refine ⟨fun h => ?_, fun h => ?_, fun hfin hz => ?_, fun hfin hz => ?_⟩
+  · unfold mpf_cmp_d; rw [h]; simp
+  · have hn : isNaN b = false := by
+      unfold isNaN; unfold isInf at h; simp at h; simp [h.1, h.2]
+    have hzf : isZero b = false := by
+      unfold isInf expOf at h; unfold isZero; simp at h ⊢; omega
+    have hneg : isNeg b = decide (sigOf b = 1) := by unfold isNeg; rw [hzf]; simp
+    unfold mpf_cmp_d; rw [hn, h, hneg]
+    by_cases c : sigOf b = 1 <;> simp [c]
+  · have hn : isNaN b = false := by unfold isNaN; simp [hfin]
+    have hi : isInf b = false := by unfold isInf; simp [hfin]
+    unfold mpf_cmp_d; rw [hn, hi, hz]
+    simp only [Bool.false_eq_true, if_false, if_true]
+    refine ⟨_, rfl, ?_⟩
+    obtain ⟨u0, u1, _⟩ := F.wf_bounds hf
+    unfold F.mant
+    rcases lt_trichotomy f.size 0 with h | h | h
+    · have := lt_of_lt_of_le (Bpow_pos _) (u1 (by omega))
+      rw [if_pos h]; exact sgn_eq_neg h (by omega)
+    · rw [h, if_neg (by omega), u0 h]; simp
+    · have := lt_of_lt_of_le (Bpow_pos _) (u1 (by omega))
+      rw [if_neg (by omega)]; exact sgn_eq_pos h (by omega)
+  · have hn : isNaN b = false := by unfold isNaN; simp [hfin]
+    have hi : isInf b = false := by unfold isInf; simp [hfin]
+    have hni : (isNaN b || isInf b) = false := by rw [hn, hi]; rfl
+    unfold mpf_cmp_d mpf_set_d; rw [hn, hi, hz]
+    simp only [Bool.false_eq_true, Bool.or_self, if_false]
+    refine ⟨_, rfl, ?_⟩
+    by_cases c : isNeg b = true <;> simp [c]
+
+example : mpf_cmp_d ⟨2, 1, [2 ^ 63, 1]⟩ 0x3FF8000000000000 = some 0 ∧ mpf_cmp_d ⟨3, 1, [1, 2 ^ 63, 1]⟩ 0x3FF8000000000000 = some 1 ∧
+    mpf_cmp_d ⟨-1, 1, [1]⟩ 0 = some (-1) ∧ mpf_cmp_d ⟨1, 900, [1]⟩ 0x7FF0000000000000 = some (-1) ∧
+    mpf_cmp_d ⟨1, 1, [1]⟩ 0x7FF0000000000001 = none := by decide
+
+/-- mpf_cmp_z compares with the mpf whose mantissa is the integer and whose low exponent is 0, so by
+    `mpf_cmp_spec` its sign is the sign of u - v. -/
+theorem mpf_cmp_z_spec (u : F) (hu : u.wf) (v : Z) (hv : v.wf) :
+    sgn (mpf_cmp_z u v) =
+      sgn (u.mant * ((B ^ (u.lowExp - min u.lowExp 0).toNat : Nat) : Int) - v.toInt * ((B ^ (0 - min u.lowExp 0).toNat : Nat) : Int)) := by
+  have wfv : F.wf ⟨v.size, v.size.natAbs, v.d⟩ := ⟨hv.1, hv.2.1, hv.2.2, fun h => by have h' : v.size = 0 := h; simp [h']⟩
+  have := mpf_cmp_spec u ⟨v.size, v.size.natAbs, v.d⟩ hu wfv
+  have hl : F.lowExp ⟨v.size, v.size.natAbs, v.d⟩ = 0 := by unfold F.lowExp; simp
+  have hm : F.mant ⟨v.size, v.size.natAbs, v.d⟩ = v.toInt := rfl
+  rw [hl, hm] at this
+  exact this
+
+example : mpf_cmp_z ⟨2, 1, [2 ^ 63, 1]⟩ ⟨1, [1]⟩ = 1 ∧ mpf_cmp_z ⟨2, 1, [2 ^ 63, 1]⟩ ⟨1, [2]⟩ = -1 ∧ mpf_cmp_z ⟨1, 2, [1]⟩ ⟨2, [0, 1]⟩ = 0 := by decide
+
 end Mpir.Conv
